@@ -569,13 +569,23 @@ func c06Exchange(rep *mon.Reporter, a, b rw, seed uint64, total int, r *mon.RNG,
 			}
 			off += n
 		}
+		// in half of the exchanges the sender announces the end of its stream right after its last byte (close_notify
+		// then travels together with the last records): the receiver must still get every byte, then a clean end
+		if cw, ok := dst.(interface{ CloseWrite() error }); ok && (seed>>16+uint64(dir))%2 == 0 {
+			cw.CloseWrite()
+			rep.Count("directions_half_closed_right_after_the_last_write", 1)
+		}
 	}
 	recv := func(src io.Reader, dir int, rr *mon.RNG) {
 		defer wg.Done()
 		got := 0
 		buf := make([]byte, 70000)
 		for got < total {
-			n, err := src.Read(buf[:1+rr.Intn(len(buf)-1)])
+			lim := len(buf) - 1
+			if (seed>>20)%3 == 0 {
+				lim = 300 // small application buffers: a record is then delivered over several Read calls
+			}
+			n, err := src.Read(buf[:1+rr.Intn(lim)])
 			for i := 0; i < n; i++ {
 				if buf[i] != patByte(seed, dir, got+i) {
 					rep.Violation(prop+"/Read/delivered-bytes-differ-from-sent", fmt.Sprintf("dir %d: first wrong byte at offset %d", dir, got+i), w)
@@ -583,6 +593,9 @@ func c06Exchange(rep *mon.Reporter, a, b rw, seed uint64, total int, r *mon.RNG,
 				}
 			}
 			got += n
+			if err == io.EOF && got == total {
+				break // the end of the stream may be reported together with its last bytes
+			}
 			if err != nil {
 				rep.Violation(prop+"/Read/error-before-all-bytes-arrived", fmt.Sprintf("dir %d: %d of %d bytes then %v", dir, got, total, err), w)
 				return
